@@ -44,17 +44,42 @@ impl DepMap {
 pub fn string_ne(a: &String, b: &String) -> (r: bool) ensures r == (a@ != b@) { a != b }
 #[verifier::external_body]
 pub fn core_file_has_main(f: &CoreFile) -> (r: bool) { unimplemented!() }
+// separate::topo_sort (Kahn's algorithm over BTreeMaps; NOT verified): on success the order lists every package
 #[verifier::external_body]
-pub fn topo_sort(cores: &HashMap<String, CoreUnit>) -> (r: Result<Vec<String>, CompilationError>) { unimplemented!() }
+pub fn topo_sort(cores: &HashMap<String, CoreUnit>) -> (r: Result<Vec<String>, CompilationError>)
+    ensures r matches Ok(o) ==> forall|k: Seq<char>| cores@.contains_key(k) ==> exists|t: int| 0 <= t < o@.len() && (#[trigger] o@[t])@ == k,
+{ unimplemented!() }
 // everything link_cores does after the consistency checks (mono, lift, anf, go): outside this unit
 #[verifier::external_body]
 pub fn link_rest(by_name: HashMap<String, CoreUnit>, order: Vec<String>) -> (r: Result<LinkOutput, CompilationError>) { unimplemented!() }
 
 // ---- C15: what `link` must guarantee about its inputs when it succeeds ----
+// the hash a dependent recorded is the linked dependency's interface hash (as stored, or as recomputed from its contents)
+pub open spec fn hash_matches(d: CoreUnit, h: Seq<char>) -> bool {
+    d.interface.interface_hash@ == h || d.interface.hash_spec() == h
+}
 pub open spec fn deps_consistent(cores: Seq<CoreUnit>) -> bool {
     forall|i: int, dep: Seq<char>| 0 <= i < cores.len() && (#[trigger] cores[i].deps@.contains_key(dep)) ==>
         exists|j: int| 0 <= j < cores.len() && #[trigger] cores[j].package@ == dep
-            && cores[j].interface.interface_hash@ == cores[i].deps@[dep]
+            && hash_matches(cores[j], cores[i].deps@[dep])
+}
+// every dependency recorded by the unit named k is linked with a matching hash
+pub open spec fn unit_ok(m: Map<Seq<char>, CoreUnit>, k: Seq<char>) -> bool {
+    m.contains_key(k) ==> forall|dep: Seq<char>| (#[trigger] m[k].deps@.contains_key(dep)) ==> m.contains_key(dep) && hash_matches(m[dep], m[k].deps@[dep])
+}
+
+// HashSet<&str> (used by some variants of the loop): a set of texts
+#[verifier::external_body]
+#[verifier::reject_recursive_types(K)]
+pub struct HashSet<K> { _k: core::marker::PhantomData<K> }
+impl<'a> HashSet<&'a str> {
+    pub uninterp spec fn view(&self) -> Set<Seq<char>>;
+    #[verifier::external_body]
+    pub fn new() -> (r: Self) ensures r@ == Set::<Seq<char>>::empty() { unimplemented!() }
+    #[verifier::external_body]
+    pub fn contains(&self, k: &str) -> (r: bool) ensures r == self@.contains(k@) { unimplemented!() }
+    #[verifier::external_body]
+    pub fn insert(&mut self, k: &'a str) -> (r: bool) ensures final(self)@ == old(self)@.insert(k@) { unimplemented!() }
 }
 // by_name holds exactly the first n units, keyed by their (distinct) package names
 pub open spec fn indexed(m: Map<Seq<char>, CoreUnit>, cores: Seq<CoreUnit>, n: int) -> bool {
@@ -80,12 +105,12 @@ pub proof fn lemma_indexed_step(m: Map<Seq<char>, CoreUnit>, cores: Seq<CoreUnit
 pub proof fn lemma_link_final(m: Map<Seq<char>, CoreUnit>, cores: Seq<CoreUnit>)
     requires indexed(m, cores, cores.len() as int),
         forall|k: Seq<char>, dep: Seq<char>| m.contains_key(k) && (#[trigger] m[k].deps@.contains_key(dep)) ==>
-            m.contains_key(dep) && m[dep].interface.interface_hash@ == m[k].deps@[dep],
+            m.contains_key(dep) && hash_matches(m[dep], m[k].deps@[dep]),
     ensures deps_consistent(cores),
 {
     assert forall|i: int, dep: Seq<char>| 0 <= i < cores.len() && (#[trigger] cores[i].deps@.contains_key(dep)) implies
         exists|j: int| 0 <= j < cores.len() && #[trigger] cores[j].package@ == dep
-            && cores[j].interface.interface_hash@ == cores[i].deps@[dep] by {
+            && hash_matches(cores[j], cores[i].deps@[dep]) by {
         let k = cores[i].package@;
         assert(m.contains_key(k) && m[k] == cores[i]);
         assert(m[k].deps@.contains_key(dep));
@@ -93,4 +118,19 @@ pub proof fn lemma_link_final(m: Map<Seq<char>, CoreUnit>, cores: Seq<CoreUnit>)
         let j = choose|j: int| 0 <= j < cores.len() && #[trigger] cores[j].package@ == dep;
         assert(m[cores[j].package@] == cores[j]);
     }
+}
+
+// variant: the consistency loop walks the topo order instead of the map
+pub proof fn lemma_link_final_b(m: Map<Seq<char>, CoreUnit>, cores: Seq<CoreUnit>, order: Seq<String>)
+    requires indexed(m, cores, cores.len() as int),
+        forall|t: int| 0 <= t < order.len() ==> unit_ok(m, (#[trigger] order[t])@),
+        forall|k: Seq<char>| m.contains_key(k) ==> exists|t: int| 0 <= t < order.len() && (#[trigger] order[t])@ == k,
+    ensures deps_consistent(cores),
+{
+    assert forall|k: Seq<char>, dep: Seq<char>| m.contains_key(k) && (#[trigger] m[k].deps@.contains_key(dep)) implies
+        m.contains_key(dep) && hash_matches(m[dep], m[k].deps@[dep]) by {
+        let t = choose|t: int| 0 <= t < order.len() && (#[trigger] order[t])@ == k;
+        assert(unit_ok(m, order[t]@));
+    }
+    lemma_link_final(m, cores);
 }
